@@ -499,6 +499,8 @@ ADDENDA = {
     "C10": "Conformance leg: the same oracle on real execution results of corpus populations (behind a replaying "
            "executor), and every real trace must lie inside the abstract trace domain (else harness error).",
     "C12": "Additional suite roots: two live suites after a crossover between them (x = x.cross_over(clone), re-evaluated).",
+    "C15": "Roots leg: six hand-written non-initial test cases (collections next to in-scope variables), every sequence of "
+           "<= 3 positional operations, cold and with warmed statement caches.",
     "C13": "Real leg: DYNAMOSA / MOSA / MIO on corpus modules numeric, raising and shifting (exception position moves "
            "under mutation), every archived test re-executed after every iteration.",
     "C16": "Corpus includes an Enum with methods, a class hierarchy and a module with several custom exceptions.",
